@@ -9,6 +9,8 @@
      HX id ot sfi ch bf lo hi   hash           Encode + Decode for every payload length lo..hi
      EN id ot f                 cls hex        SetAACDescriptor: the encoded mp4a sample entry
      ED id hex                  obs            mp4.DecodeBox on the bytes of an mp4a entry
+     BW id ops flush            hex            bits.Writer: ops = v:w;... (hex value, decimal width), Flush if flush=1
+     BR id hex widths           obs            bits.Reader: Read(w) for each width: value/err,...
    ED cases outside the modelled decoder path are answered "SKIP <id>" *)
 open Vx
 open Base
@@ -98,6 +100,21 @@ let () =
         let m = string_of_int !h in
         if m = hash then Printf.printf "OK %s\n" id
         else Printf.printf "MISMATCH %s adts-range model_hash=%s\n" id m
+      | ["BW"; id; ops; fl; hex] ->
+        let ops = if ops = "-" then [] else L.map (fun o -> match split_on ':' o with
+            | [v; w] -> (n_of_hex v, nat_of_int (int_of_string w)) | _ -> failwith "bad op") (split_on ';' ops) in
+        let bits = L.concat (L.map (fun (v, w) -> to_bits w v) ops) in
+        let m = hex_of_bytes (pack (if fl = "1" then flush bits else bits)) in
+        if m = hex then Printf.printf "OK %s\n" id
+        else Printf.printf "MISMATCH %s bits.Writer model=%s\n" id m
+      | ["BR"; id; hex; widths; obs] ->
+        let ws = ints_of_csv widths in
+        let (_, tr) = L.fold_left (fun (s, tr) w ->
+            let (v, s') = rd (nat_of_int w) s in
+            (s', (hex_of_n v ^ "/" ^ (if s'.rerr then "1" else "0")) :: tr)) (rinit (bytes_of_hex hex), []) ws in
+        let m = match tr with [] -> "-" | _ -> S.concat "," (L.rev tr) in
+        if m = obs then Printf.printf "OK %s\n" id
+        else Printf.printf "MISMATCH %s bits.Reader model=%s\n" id m
       | ["EN"; id; ot; f; cls; hex] ->
         let m = match set_aac_descriptor (ni ot) (z_of_hex f) with
           | Ok bs -> "ok\t" ^ hex_of_bytes bs
